@@ -722,6 +722,13 @@ func (s *ObjectStorage) DeltaObject(t plumbing.ObjectType, h plumbing.Hash) (plu
 		obj, err = s.getFromPackfile(h, true)
 	}
 
+	// Like EncodedObject: what is not here may live in an alternate.
+	if errors.Is(err, plumbing.ErrObjectNotFound) {
+		obj, err = findInAlternates(s, func(alt *ObjectStorage) (plumbing.EncodedObject, error) {
+			return alt.DeltaObject(t, h)
+		})
+	}
+
 	if err != nil {
 		return nil, err
 	}
